@@ -53,7 +53,8 @@ func (pv *ResponseBatchItem) TagEncodeTTLV(e *ttlv.Encoder, tag int) {
 			e.ByteString(TagUniqueBatchItemID, pv.UniqueBatchItemID)
 		}
 		e.Any(pv.ResultStatus)
-		if pv.ResultStatus != ResultStatusSuccess || pv.ResultReason != 0 {
+		// Result Reason is required for a failed item; otherwise it is carried only when populated.
+		if pv.ResultStatus == ResultStatusOperationFailed || pv.ResultReason != 0 {
 			e.Any(pv.ResultReason)
 		}
 		if pv.ResultMessage != "" {
